@@ -116,7 +116,8 @@ def check_case(out: Outcome, case, tag):
             folded = np.mod(np.array(traj.positions).reshape(-1, 3), 1 / np.array(sc)) * np.array(sc)
             fm = core.drive([(str(k), f'fold {sc[k]} {len(pos)} ' + ' '.join(enc(v) for v in np.array(traj.positions).reshape(-1, 3)[:, k].tolist())) for k in range(3)])
             want_fold = np.array([[float(core.dec_rat(t)) for t in fm[str(k)].split()[1:]] for k in range(3)]).T
-            if not np.allclose(folded, want_fold, atol=1e-12):
+            # compare modulo 1: with scale 3 the float 1/3 puts a position on a sub-cell face at 0.999… or at 0
+            if np.any(np.abs(((folded - want_fold + 0.5) % 1) - 0.5) > 1e-9):
                 out.fail('correspondence', 'model-fold', case, expected=want_fold.tolist(), observed=folded.tolist())
             use_pos = folded
         else:
